@@ -455,7 +455,7 @@ func ruleD3(c *Ctx) {
 // ---------- D4 ----------
 
 var d4Allowed = map[string]string{
-	"lib/time.init#1 / NowFunc":  "",
+	"lib/time.init#1 / NowFunc":      "",
 	"starlark.init:maphash.MakeSeed": "",
 }
 
@@ -470,21 +470,21 @@ func ruleD4(c *Ctx) {
 		"lib/time.init": "reference to time.Now",
 	}
 	allowedFn := map[string]string{
-		"lib/time.init":             "lib/time's NowFunc default: the documented, host-replaceable clock of the time module",
-		"starlark.init":             "per-process hash seed, confined to bucket selection (D3)",
-		"starlark.profiler":         "profiler",
-		"starlark.StartProfile":     "profiler",
+		"lib/time.init":                    "lib/time's NowFunc default: the documented, host-replaceable clock of the time module",
+		"starlark.init":                    "per-process hash seed, confined to bucket selection (D3)",
+		"starlark.profiler":                "profiler",
+		"starlark.StartProfile":            "profiler",
 		"(*starlark.Thread).beginProfSpan": "profiler",
 		"(*starlark.Thread).endProfSpan":   "profiler",
-		"starlark.nanotime":         "profiler clock",
-		"starlark.profile":          "profiler",
-		"starlark.profFuncAddr":     "profiler: function address used as a profile key only",
-		"starlark.noescape":         "escape-analysis helper: round-trips a pointer through uintptr, the integer is never observed",
-		"(*starlark.hashtable).dump": "debugging aid, unreachable from the API",
-		"(*lib/proto.Message).Hash": "identity hash of a message (lib/proto is outside this property's quantifier)",
-		"starlark.init#1":           "package initialisation",
-		"starlark.hashString":       "the seeded string hash itself; its result is confined to bucket selection by rule D3",
-		"lib/time.now":              "time.now(): reads the host clock through NowFunc by design",
+		"starlark.nanotime":                "profiler clock",
+		"starlark.profile":                 "profiler",
+		"starlark.profFuncAddr":            "profiler: function address used as a profile key only",
+		"starlark.noescape":                "escape-analysis helper: round-trips a pointer through uintptr, the integer is never observed",
+		"(*starlark.hashtable).dump":       "debugging aid, unreachable from the API",
+		"(*lib/proto.Message).Hash":        "identity hash of a message (lib/proto is outside this property's quantifier)",
+		"starlark.init#1":                  "package initialisation",
+		"starlark.hashString":              "the seeded string hash itself; its result is confined to bucket selection by rule D3",
+		"lib/time.now":                     "time.now(): reads the host clock through NowFunc by design",
 	}
 	n := 0
 	sort.Slice(c.P.InitFuncs, func(i, j int) bool { return c.P.InitFuncs[i].String() < c.P.InitFuncs[j].String() })
